@@ -17,7 +17,7 @@ def run_view_check(v, tier, seed, want, sources, rule, explanation, assumptions=
     v.add(states=states, transitions=trans, evaluations=evals, distinct_nontrivial=nvec,
           traces_validated_against_impl=nvec, rule=rule, exhaustive=False)
     v.assumptions += ["little-endian host", "TLC and the installed compilers are trusted",
-                      "scope: the schema catalogue of tools/catalogue.py and the shapes chosen per message (seeded)"] + list(assumptions)
+                      "scope: the schema catalogue of tools/catalogue.py, schemas built by SchemaBuild.tla, the repository's own schemas (test/schemas, benchmark; tools/xmlimport.py) and the shapes chosen per message (seeded)"] + list(assumptions)
     return v.finish("model_checking", explanation)
 
 
